@@ -5,12 +5,17 @@ import Mathlib.Tactic.Common
 
 "Inputs that violate a documented precondition (…) raise an error before any result is produced."
 
-Full statement wanted: `accepts i = .ok () ↔ WellFormed i`.
-* `←` holds (`wellformed_implies_accepts`: no false rejections).
-* `→` is FALSE of the code: nothing checks `0 ≤ nocc ≤ norb` / `mult ≥ 1`
-  (`missing_nocc_guard_counterexample`, finding F17).  It holds under the extra hypothesis
-  `occOK i` (`accepts_implies_wellformed_partial`), and unconditionally for the code with the
-  occupation guard added (`acceptsFixed_iff_wellformed`).
+Full statement wanted: `accepts i = .ok () ↔ WellFormed i`.  Three versions of the code:
+
+* `acceptsPreFix` — the pinned commit.  `←` holds (`wellformed_implies_acceptsPreFix`);
+  `→` is FALSE: nothing checks `0 ≤ nocc ≤ norb` (`missing_nocc_guard_counterexample`, finding F17);
+  it holds under the extra hypothesis `occOK i` (`accepts_implies_wellformed_partial`).
+* `accepts` — the code as it is now, with the repair of F17 (`nocc_min ≥ 0`, `nocc_max ≤ norb`).
+  `←` holds (`wellformed_implies_accepts`); `→` holds whenever the multiplicities are ≥ 1
+  (`accepts_iff_wellformed_of_mult_pos`) and fails only for non-positive "multiplicities"
+  (`nonpositive_multiplicity_accepted_counterexample`: `mult = −1` is run as the α/β-swapped
+  triplet).
+* `acceptsFixed` — additionally `mult ≥ 1`: `acceptsFixed_iff_wellformed`, both directions.
 
 The second sentence of C18 (finite results or an explicit flag) concerns the numerical kernels and
 is covered by probes, not by this model.
@@ -153,33 +158,73 @@ theorem acceptsFixed_iff_wellformed (i : Input) : acceptsFixed i = .ok () ↔ We
     List.mem_cons, List.not_mem_nil, or_false, forall_eq, Bool.not_eq_false']
   tauto
 
-/-- acceptance by the code as it is = well-formedness minus the occupation range -/
-theorem accepts_iff (i : Input) :
-    accepts i = .ok () ↔
+/-- acceptance at the pinned commit = well-formedness minus the occupation range -/
+theorem acceptsPreFix_iff (i : Input) :
+    acceptsPreFix i = .ok () ↔
       (∀ m ∈ i.mols, m.species.Pairwise (· ≥ ·)) ∧
       (i.uhf = false → ∀ m ∈ i.mols, nelec m % 2 = 0) ∧
       (i.uhf = true → ∀ m ∈ i.mols, (nelec m + (m.mult - 1)) % 2 = 0) ∧
       scfOK i.uhf i.sp2 i.method i.converger i.scfBackward ∧
       excitedOK i.uhf i.excited i.activeExcited (analyticalEff i) (homogeneous i) (uniformOcc i) ∧
       i.removeCom ≠ some .other := by
-  unfold accepts
+  unfold acceptsPreFix
   rw [firstError_ok_iff]
   simp only [List.forall_mem_append, guardsParse_pass, guardsRest_pass]
   tauto
 
-/-- **C18, code as it is, partial**: acceptance implies well-formedness provided the occupations
-    are in range (`mult ≥ 1`, `0 ≤ nocc ≤ norb`) — the one precondition no guard checks. -/
+/-- acceptance by the code as it is now (repair of F17 in place) -/
+theorem accepts_iff (i : Input) :
+    accepts i = .ok () ↔ acceptsPreFix i = .ok () ∧ noccRangeOK i = true := by
+  unfold accepts acceptsPreFix
+  simp only [firstError_ok_iff, List.forall_mem_append, guardNocc,
+    List.mem_cons, List.not_mem_nil, or_false, forall_eq, Bool.not_eq_false']
+  tauto
+
+/-- **C18, pinned commit, partial**: acceptance implies well-formedness provided the occupations
+    are in range (`mult ≥ 1`, `0 ≤ nocc ≤ norb`) — the one precondition no guard checked. -/
 theorem accepts_implies_wellformed_partial (i : Input) (hocc : occOK i = true)
-    (h : accepts i = .ok ()) : WellFormed i := by
-  rw [accepts_iff] at h
+    (h : acceptsPreFix i = .ok ()) : WellFormed i := by
+  rw [acceptsPreFix_iff] at h
   unfold WellFormed
   tauto
 
-/-- no false rejections, by the code as it is -/
-theorem wellformed_implies_accepts (i : Input) (h : WellFormed i) : accepts i = .ok () := by
-  rw [accepts_iff]
+/-- no false rejections at the pinned commit -/
+theorem wellformed_implies_acceptsPreFix (i : Input) (h : WellFormed i) : acceptsPreFix i = .ok () := by
+  rw [acceptsPreFix_iff]
   unfold WellFormed at h
   tauto
+
+/-- with multiplicities ≥ 1 the committed guard is the documented occupation range -/
+theorem occOK_iff_noccRangeOK (i : Input) (hm : i.uhf = true → ∀ m ∈ i.mols, 1 ≤ m.mult) :
+    occOK i = true ↔ noccRangeOK i = true := by
+  unfold occOK noccRangeOK
+  simp only [List.all_eq_true]
+  refine forall₂_congr fun m hmem => ?_
+  cases hu : i.uhf
+  · simp
+  · have h1 := hm hu m hmem
+    simp only [↓reduceIte, Bool.and_eq_true, decide_eq_true_eq]
+    unfold twoAlpha twoBeta
+    omega
+
+/-- **C18, code as it is now**: with multiplicities ≥ 1 the guards accept exactly the well-formed
+    inputs. -/
+theorem accepts_iff_wellformed_of_mult_pos (i : Input)
+    (hm : i.uhf = true → ∀ m ∈ i.mols, 1 ≤ m.mult) : accepts i = .ok () ↔ WellFormed i := by
+  rw [accepts_iff, acceptsPreFix_iff, ← occOK_iff_noccRangeOK i hm]
+  unfold WellFormed
+  tauto
+
+/-- no false rejections by the code as it is now -/
+theorem wellformed_implies_accepts (i : Input) (h : WellFormed i) : accepts i = .ok () := by
+  have hm : i.uhf = true → ∀ m ∈ i.mols, 1 ≤ m.mult := by
+    intro hu m hmem
+    have hocc := h.2.2.2.1
+    unfold occOK at hocc
+    have := (List.all_eq_true.1 hocc) m hmem
+    simp only [hu, if_true, Bool.and_eq_true, decide_eq_true_eq] at this
+    exact this.1.1
+  exact (accepts_iff_wellformed_of_mult_pos i hm).2 h
 
 /-- neutral water, UHF, multiplicity 9 -/
 def waterMult9 : Input :=
@@ -187,26 +232,34 @@ def waterMult9 : Input :=
     sp2 := false, converger := .adaptive, scfBackward := .none, excited := none,
     activeExcited := false, analyticalGrad := false, removeCom := none }
 
-/-- **finding F17**: the converse of the partial theorem's extra hypothesis cannot be dropped.
-    Neutral H₂O with UHF and multiplicity 9 passes every guard of the code although it asks for
-    8 α electrons in 6 orbitals (and 0 β); the repaired guard rejects it. -/
+def h2o (c m : Int) : Mol := { species := [8, 1, 1], charge := c, mult := m }
+def ch2 (c m : Int) : Mol := { species := [6, 1, 1], charge := c, mult := m }
+/-- AM1, adaptive mixing, `scf_backward = 0`, nothing else requested -/
+def plain (uhf : Bool) (mols : List Mol) : Input := { waterMult9 with uhf := uhf, mols := mols }
+def withExc (m : ExcMethod) (mols : List Mol) : Input :=
+  { plain false mols with excited := some { method := m, nStatesGiven := true } }
+
+/-- **finding F17**: the extra hypothesis of the partial theorem cannot be dropped.
+    Neutral H₂O with UHF and multiplicity 9 passes every guard of the pinned commit although it
+    asks for 8 α electrons in 6 orbitals (and 0 β); the committed repair rejects it. -/
 theorem missing_nocc_guard_counterexample :
-    accepts waterMult9 = .ok () ∧ ¬ WellFormed waterMult9 ∧
+    acceptsPreFix waterMult9 = .ok () ∧ ¬ WellFormed waterMult9 ∧
     (waterMult9.mols.map twoAlpha = [16]) ∧ (waterMult9.mols.map (norb .am1) = [6]) ∧
-    acceptsFixed waterMult9 = .error .noccRange := by
+    accepts waterMult9 = .error .noccRange ∧ acceptsFixed waterMult9 = .error .noccRange := by
   decide
 
-/-- a further instance: `mult = -1` passes the parity test as well (α/β swapped triplet) -/
-theorem negative_multiplicity_accepted :
-    accepts { waterMult9 with mols := [{ species := [8, 1, 1], charge := 0, mult := -1 }] } = .ok () ∧
-    acceptsFixed { waterMult9 with mols := [{ species := [8, 1, 1], charge := 0, mult := -1 }] }
-      = .error .noccRange := by
+/-- what is left after the repair: a non-positive "multiplicity" of the right parity is accepted
+    (`mult = −1`: nocc = (3, 5), the triplet with α/β exchanged) -/
+theorem nonpositive_multiplicity_accepted_counterexample :
+    accepts (plain true [h2o 0 (-1)]) = .ok () ∧ ¬ WellFormed (plain true [h2o 0 (-1)]) ∧
+    acceptsFixed (plain true [h2o 0 (-1)]) = .error .noccRange := by
   decide
 
-/-- an over-charged RHF ion (`H₂O¹⁰⁺`: −2 electrons) passes every guard of the code -/
+/-- an over-charged RHF ion (`H₂O¹⁰⁺`: −2 electrons) passed every guard of the pinned commit (it
+    failed later by an incidental `IndexError`); the repair rejects it -/
 theorem overcharged_rhf_accepted :
-    accepts { waterMult9 with uhf := false,
-                              mols := [{ species := [8, 1, 1], charge := 10, mult := 1 }] } = .ok () := by
+    acceptsPreFix (plain false [h2o 10 1]) = .ok () ∧
+    accepts (plain false [h2o 10 1]) = .error .noccRange := by
   decide
 
 /-- **structural**: `calculate` consults the guards before the numerical kernel is touched:
@@ -223,20 +276,14 @@ theorem guards_fire_before_results {ρ : Type} (compute : Input → ρ) (i : Inp
 
 /-- rejected inputs produce no result, whatever the kernel would have returned (even `NaN`) -/
 theorem illformed_yields_no_result {ρ : Type} (compute : Input → ρ) (i : Input)
-    (hocc : occOK i = true) (h : ¬ WellFormed i) : ∃ e, calculate compute i = .error e := by
+    (hm : i.uhf = true → ∀ m ∈ i.mols, 1 ≤ m.mult) (h : ¬ WellFormed i) :
+    ∃ e, calculate compute i = .error e := by
   unfold calculate
   cases ha : accepts i with
   | error e => exact ⟨e, rfl⟩
-  | ok u => cases u; exact absurd (accepts_implies_wellformed_partial i hocc ha) h
+  | ok u => cases u; exact absurd ((accepts_iff_wellformed_of_mult_pos i hm).1 ha) h
 
 /-! ## order of firing, and observations -/
-
-def h2o (c m : Int) : Mol := { species := [8, 1, 1], charge := c, mult := m }
-def ch2 (c m : Int) : Mol := { species := [6, 1, 1], charge := c, mult := m }
-/-- AM1, adaptive mixing, `scf_backward = 0`, nothing else requested -/
-def plain (uhf : Bool) (mols : List Mol) : Input := { waterMult9 with uhf := uhf, mols := mols }
-def withExc (m : ExcMethod) (mols : List Mol) : Input :=
-  { plain false mols with excited := some { method := m, nStatesGiven := true } }
 
 /-- with two violations the earlier site wins: unsorted species + odd electron count -/
 example : accepts (plain false [{ species := [1, 6, 1, 1], charge := 0, mult := 1 }]) = .error .unsorted := by
